@@ -63,9 +63,12 @@ ImplOp(op) == LET S == RunAll(Begin(fs, mem, op)) IN
               /\ fs' = S.fs /\ mem' = S.mem
               /\ obs'.ret = S.ret /\ ErrClass(obs'.err) = S.err
 
+\* a.rcs = further crashes during recovery (the recovering process was killed
+\* in front of a crash point of New), then an uninterrupted recovery
 ImplCrash(a) == LET R == RunTo(Begin(fs, mem, a.op), a.p, a.n)
-                    V == RecoverFS(R.S.fs) IN
-                /\ R.hit
+                    C == CrashedRecoveries(R.S.fs, a.rcs)
+                    V == RecoverFS(C.fs) IN
+                /\ R.hit /\ C.hit
                 /\ fs' = V.fs /\ mem' = V.mem /\ obs'.err = ""
 
 StateChecks(e) ==
